@@ -235,12 +235,12 @@ pub fn controlled<R>(prefix: &[usize], workers: usize, body: impl FnOnce() -> R)
 
 /// One parallel region: decide partition, chunk order, workers; run; return per-task outputs.
 /// Result: (task index, outputs) in completion order, plus the chunk each task belonged to.
-fn execute<'a, T: Send + 'a>(tasks: Vec<Box<dyn FnOnce() -> Vec<T> + Send + 'a>>) -> Vec<(usize, Vec<T>)> {
+fn execute<'a, T: Send + 'a>(tasks: Vec<Box<dyn FnOnce() -> Vec<T> + Send + 'a>>, ordered: bool) -> Vec<(usize, Vec<T>)> {
     let n = tasks.len();
     if n == 0 {
         return vec![];
     }
-    let chunks = plan_region(n);
+    let chunks = plan_region(n, ordered);
     run_chunks(tasks, &chunks, |_c| (), |_, t| t())
 }
 
@@ -252,12 +252,13 @@ pub struct Chunk {
     pub index: usize,
 }
 
-fn plan_region(n: usize) -> Vec<Chunk> {
+fn plan_region(n: usize, ordered: bool) -> Vec<Chunk> {
     let region = next_region(n);
-    // partition: cut after item i?
+    // partition: cut after item i? A bridged (`par_bridge`) iterator has no contiguous chunks: workers pull the
+    // items one at a time, so every item is a task of its own and only the order / worker choices remain.
     let mut bounds = vec![0usize];
     for i in 0..n.saturating_sub(1) {
-        if choose(region, "cut", 2) == 1 {
+        if !ordered || choose(region, "cut", 2) == 1 {
             bounds.push(i + 1);
         }
     }
@@ -480,7 +481,7 @@ impl<'a, T: Send + 'a> ParIter<'a, T> {
         if n == 0 {
             return ParIter { tasks: vec![], ordered: self.ordered };
         }
-        let plan = plan_region(n);
+        let plan = plan_region(n, self.ordered);
         let mut res = run_chunks(self.tasks, &plan, |_| init(), |s, t| t().into_iter().map(|x| f(s, x)).collect::<Vec<U>>());
         let ordered = self.ordered;
         if ordered {
@@ -495,7 +496,7 @@ impl<'a, T: Send + 'a> ParIter<'a, T> {
         if n == 0 {
             return ParIter { tasks: vec![], ordered: self.ordered };
         }
-        let plan = plan_region(n);
+        let plan = plan_region(n, self.ordered);
         // run chunk by chunk; accumulate per chunk
         let accs: Mutex<Vec<(usize, Option<A>)>> = Mutex::new(plan.iter().map(|c| (c.index, None)).collect());
         let res = run_chunks(
@@ -524,7 +525,7 @@ impl<'a, T: Send + 'a> ParIter<'a, T> {
 
     fn run_ordered(self) -> Vec<T> {
         let ordered = self.ordered;
-        let mut res = execute(self.tasks);
+        let mut res = execute(self.tasks, ordered);
         if ordered {
             res.sort_by_key(|r| r.0);
         }
@@ -532,7 +533,8 @@ impl<'a, T: Send + 'a> ParIter<'a, T> {
     }
 
     fn run_completion_order(self) -> Vec<T> {
-        execute(self.tasks).into_iter().flat_map(|r| r.1).collect()
+        let ordered = self.ordered;
+        execute(self.tasks, ordered).into_iter().flat_map(|r| r.1).collect()
     }
 
     pub fn collect<C: FromParallelIterator<T>>(self) -> C {
@@ -563,7 +565,7 @@ impl<'a, T: Send + 'a> ParIter<'a, T> {
                 }) as Box<dyn FnOnce() -> Vec<()> + Send + 'a>
             })
             .collect();
-        let _ = execute(tasks);
+        let _ = execute(tasks, self.ordered);
     }
 
     pub fn for_each_with<S: Clone + Send + 'a, F: Fn(&mut S, T) + Sync + Send + 'a>(self, init: S, f: F) {
